@@ -191,7 +191,7 @@ CLAIMED['C08'] = dict(
     note=NOTE + ' The OS scheduler is sampled (nprocesses 1..8), not enumerated: the model is fed the schedule the harness observed. Members with different column counts (IndexError in ensemble_sift) are discarded and counted.')
 
 CLAIMED['C02'] = dict(
-    technique='Coq proof of ONE equivariance theorem for the abstract extraction loop / outer loop / masked extraction (any map sigma commuting with the oracles), instantiated for scaling by c>0, c<0, sign flip and time reversal over the concrete integer extrema / padding / stop-rule models + exact and guarded differential oracle on real numerics (PARTIAL: IEEE bit-exactness not proved; one known finding)',
+    technique='Coq proof of ONE equivariance theorem for the abstract extraction loop / outer loop / masked extraction (any map sigma commuting with the oracles), instantiated for scaling by c>0, c<0, sign flip and time reversal over the concrete integer extrema / padding / stop-rule models + exact and guarded differential oracle on real numerics + TRANSLATION TIES (Prop_Tie_Sift.v, Prop_Tie_Extrema.v): the control skeletons of get_next_imf / sift / mask_sift and the bodies of the extrema routines, on whose models the Symmetry model is built, are regenerated from the source on every run and their refinement theorems re-checked (PARTIAL: IEEE bit-exactness not proved; one known finding)',
     text='PARTIAL, with one KNOWN FINDING. Theorems (Prop_C02.v) prove, for every signal type and every map sigma that commutes with the signal '
          'arithmetic and under which the envelope oracle is equivariant and the stop oracles invariant, that get_next_imf and the whole sift of '
          'sigma(X) are sigma applied to those of X (every fuel, limit, method; threshold scaled with |c|), and the same for the masked extraction when '
